@@ -3,8 +3,10 @@
     Executable definitions only; proofs are in CacheProofs.v.
 
     Two models live in this file:
-      - [watch] / [step] / [run]                    : the code as it is (faithful, including defect F-C12);
-      - [Cache_fixed.watch] / [.step] / [.run]      : the repair candidate (fixes/C12-watch-rollback.diff):
+      - [watch] / [step] / [run]                    : the code up to the repair of F-C12 (faithful, including
+        the defect; "as it is" in comments refers to that revision);
+      - [Cache_fixed.watch] / [.step] / [.run]      : fixes/C12-watch-rollback.diff, applied to the
+        repository as commit 95ce509 - the model of the current cache.go:
         the owner reference is recorded only after the informer runs with all event handlers, and a
         half-started informer is stopped again.
     Everything except Watch is shared. *)
